@@ -75,6 +75,12 @@ def make_namespace(T):
             print(t)
         return BadRepr()
 
+    def pd(k, *toks):
+        T.append(k)
+        for t in toks:
+            print(t)
+        return lambda f: f
+
     async def aw(k, *toks):
         T.append(k)
         for t in toks:
@@ -82,7 +88,13 @@ def make_namespace(T):
         await asyncio.sleep(0)
         return V(k)
 
-    return {'T': T, 'p': p, 'v': v, 'bad': bad, 'aw': aw, 'xdvhelp': help_,
+    def rz(k, exc, *toks):
+        T.append(k)
+        for t in toks:
+            print(t)
+        raise exc
+
+    return {'T': T, 'p': p, 'v': v, 'bad': bad, 'aw': aw, 'rz': rz, 'pd': pd, 'xdvhelp': help_,
             'ExitTestException': exceptions.ExitTestException}
 
 
@@ -107,11 +119,13 @@ REQ_FORMS = {
 }
 
 
-def dir_comment(dirs, rot):
+def dir_comment(dirs, rot, case_rot=0):
+    """rot varies per part (comment prefix); the concrete spelling of a condition is fixed per doctest
+    (case_rot), otherwise -REQUIRES(x) would not name the condition +REQUIRES(x) added"""
     items = []
     for d in dirs:
         n = d['n']
-        txt = DIRTEXT.get(n) or REQ_FORMS[n][rot % len(REQ_FORMS[n])]
+        txt = DIRTEXT.get(n) or REQ_FORMS[n][case_rot % len(REQ_FORMS[n])]
         items.append(('+' if d['pos'] else '-') + txt)
     prefix = ['# xdoctest: ', '# xdoc: ', '# doctest: '][rot % 3]
     return prefix + ', '.join(items)
@@ -145,7 +159,7 @@ def render_body(k, part, rot):
     b = part['body']
     want = part['want']
     o1, o2 = "'o%d_1'" % k, "'o%d_2'" % k
-    last_expr_ok = True
+    single = bool(part['dirs']) and part['inline']     # a trailing directive belongs to ONE statement
     if b == 'comment':
         return [['# comment %d' % k]] if not part['dirs'] or part['inline'] else []
     if b == 'exec':
@@ -153,12 +167,17 @@ def render_body(k, part, rot):
                  [['y%d = 1' % k], ['x%d = p(%d)' % (k, k)]],
                  [['x%d = [p(%d),' % (k, k), '       0]']],
                  [['for _i in [0]:', '    x%d = p(%d)' % (k, k)]]]
+        if single:
+            forms = [f for f in forms if len(f) == 1]
         return forms[rot % len(forms)]
     if b == 'execp':
         forms = [[['x%d = p(%d, %s)' % (k, k, o1)]],
                  [['x%d = p(%d)' % (k, k)], ['y%d = print(%s)' % (k, o1)]],
                  [['x%d = p(%d,' % (k, k), '       %s)' % o1]],
-                 [['if True:', '    x%d = p(%d, %s)' % (k, k, o1)]]]
+                 [['if True:', '    x%d = p(%d, %s)' % (k, k, o1)]],
+                 [['@pd(%d, %s)' % (k, o1), 'def f%d():' % k, '    pass']]]
+        if single:
+            forms = [f for f in forms if len(f) == 1]
         return forms[rot % len(forms)]
     if b == 'execpp':
         forms = [[['x%d = p(%d, %s, %s)' % (k, k, o1, o2)]],
@@ -176,7 +195,10 @@ def render_body(k, part, rot):
         cls, msg = exc_for(k, want, rot)
         first = 'x%d = p(%d%s)' % (k, k, (', ' + o1) if b == 'praise' else '')
         forms = [[[first], ['raise %s(%r)' % (cls[0], msg)]],
-                 [[first], ['z%d = xdvhelp.boom(%s(%r))' % (k, cls[0], msg)]]]
+                 [[first], ['z%d = xdvhelp.boom(%s(%r))' % (k, cls[0], msg)]],
+                 [['z%d = rz(%d, %s(%r)%s)' % (k, k, cls[0], msg, (', ' + o1) if b == 'praise' else '')]]]
+        if single:
+            forms = [f for f in forms if len(f) == 1]
         return forms[(rot // 2) % len(forms)]
     if b == 'exit':
         return [['x%d = p(%d)' % (k, k)], ['raise ExitTestException()']]
@@ -196,6 +218,14 @@ def render_body(k, part, rot):
         return [['x%d = p(%d)' % (k, k)], ['import sys, io'], ['sys.stdout = io.StringIO()']]
     if b == 'filters':
         return [['x%d = p(%d)' % (k, k)], ['import warnings'], ["warnings.simplefilter('error')"]]
+    if b == 'defh':
+        forms = [[['x%d = p(%d)' % (k, k)], ['def hh(e):', '    a = 1', '    b = 2', '    c = 3', '    d = 4', '    raise e']],
+                 [['x%d = p(%d)' % (k, k)], ['def hh(e):', '    raise e']],
+                 [['x%d = p(%d)' % (k, k)], ['class hh(object):', '    def __init__(self, e):', '        self.e = e', '        raise e']]]
+        return forms[rot % len(forms)]
+    if b == 'callh':
+        cls, msg = exc_for(k, want, rot)
+        return [['x%d = p(%d)' % (k, k)], ['z%d = hh(%s(%r))' % (k, cls[0], msg)]]
     raise KeyError(b)
 
 
@@ -264,6 +294,7 @@ def render_program(prog, wants, rot, indent=0):
     Returns (text, expected_part_count, line index of each part's first line)."""
     lines = []
     starts = []
+    infos = []
     prev = None
     for idx, part in enumerate(prog):
         k = idx + 1
@@ -280,25 +311,31 @@ def render_program(prog, wants, rot, indent=0):
         starts.append(len(lines))
         src = []
         if part['dirs'] and not part['inline']:
-            src.append(dir_comment(part['dirs'], r))
+            src.append(dir_comment(part['dirs'], r, rot))
         for s in stmts:
             src.extend(s)
         if part['dirs'] and part['inline']:
             # attach to the first or the last line of the first statement
             first = stmts[0]
             pos = (len(src) - sum(len(s) for s in stmts)) + (len(first) - 1 if (r % 2 and not first[0].rstrip().endswith(':')) else 0)
-            src[pos] = src[pos] + '  ' + dir_comment(part['dirs'], r)
+            src[pos] = src[pos] + '  ' + dir_comment(part['dirs'], r, rot)
         first_of_stmt = set()
         n = 1 if (part['dirs'] and not part['inline']) else 0
         first_of_stmt.add(0)
         for s in stmts:
             first_of_stmt.add(n)
             n += len(s)
+        src_at = len(lines)
         for li, text in enumerate(src):
             lines.append('>>> ' + text)
-        lines += render_want(k, part, wants[idx], prog, r)
+        want_at = len(lines)
+        wl = render_want(k, part, wants[idx], prog, r)
+        lines += wl
+        infos.append({'src_at': src_at, 'nsrc': len(src), 'want_at': want_at, 'nwant': len(wl),
+                      'last_stmt_at': src_at + len(src) - (len(stmts[-1]) if stmts else 0)})
         prev = part
     pad = ' ' * indent
+    starts = infos
     return '\n'.join(pad + l if l else l for l in lines), starts
 
 
@@ -307,7 +344,7 @@ def render_program(prog, wants, rot, indent=0):
 
 KIND_TO_EXC = {
     'gotwant': ('GotWantException',),
-    'exc': ('ValueError', 'CustomErr', 'KeyError'),
+    'exc': ('ValueError', 'CustomErr', 'KeyError', 'NameError'),
     'compile': ('SyntaxError',),
     'reprfail': ('ExtractGotReprException', 'RuntimeError'),
     'directive': ('Exception',),
@@ -346,7 +383,7 @@ def run_case(prog, wants, cfg, rot, modpath=None, verbose=0):
     from xdoctest import doctest_example
     text, starts = render_program(prog, wants, rot)
     T = []
-    obs = {'text': text}
+    obs = {'text': text, 'layout': starts}
     with warnings.catch_warnings():
         warnings.simplefilter('ignore')
         dt = doctest_example.DocTest(text, modpath=modpath, callname='case', mode=cfg['mode'])
@@ -355,6 +392,8 @@ def run_case(prog, wants, cfg, rot, modpath=None, verbose=0):
         dt.global_namespace.update(make_namespace(T))
         old_stdout, old_stderr = sys.stdout, sys.stderr
         old_filters = list(warnings.filters)
+        old_showwarning = warnings.showwarning
+        old_path = list(sys.path)
         sink = io.StringIO()
         sys.stdout = sink
         outer = sys.stdout
@@ -379,9 +418,18 @@ def run_case(prog, wants, cfg, rot, modpath=None, verbose=0):
             obs['stdout_restored'] = sys.stdout is outer
             obs['stderr_restored'] = sys.stderr is old_stderr
             obs['filters_restored'] = warnings.filters == old_filters
+            obs['showwarning_restored'] = warnings.showwarning is old_showwarning
+            new_path = [q for q in sys.path if q != '/xdv/leftover']
+            obs['path_restored'] = new_path == old_path
+            if not obs['path_restored']:
+                obs['path_diff'] = [q for q in new_path if q not in old_path] + ['-' + q for q in old_path if q not in new_path]
+            import asyncio
+            obs['no_running_loop'] = asyncio._get_running_loop() is None
         finally:
             sys.stdout, sys.stderr = old_stdout, old_stderr
             warnings.filters[:] = old_filters
+            warnings.showwarning = old_showwarning
+            sys.path[:] = old_path
     obs['trace'] = list(T)
     fp = dt.failed_part
     if fp is None:
@@ -394,6 +442,13 @@ def run_case(prog, wants, cfg, rot, modpath=None, verbose=0):
     obs['skipped'] = sorted(dt._parts.index(p) + 1 for p in dt._skipped_parts)
     obs['n_unmatched'] = len(dt._unmatched_stdout)
     obs['ns_empty'] = len(dt.global_namespace) == 0
+    rs = dt._runstate
+    if rs is not None:
+        gs = rs._global_state
+        obs['final_g'] = {'SKIP': bool(gs['SKIP']), 'IGNORE_WANT': bool(gs['IGNORE_WANT']), 'IED': bool(gs['IGNORE_EXCEPTION_DETAIL']),
+                          'ELLIPSIS': bool(gs['ELLIPSIS']), 'NREQ': len(gs['REQUIRES'])}
+        from xdoctest import directive as _d
+        obs['defaults_untouched'] = (_d.DEFAULT_RUNTIME_STATE['REQUIRES'] == set() and not _d.DEFAULT_RUNTIME_STATE['SKIP'])
     obs['dt'] = dt
     return obs
 
@@ -422,6 +477,9 @@ def expected_from_state(st):
     exp['skipped'] = sorted(st['skipped'])
     exp['n_unmatched'] = len(st['unmatched'])
     exp['done'] = st['pc'] == 'done'
+    if 'g' in st:
+        g = st['g']
+        exp['final_g'] = {'SKIP': g['SKIP'], 'IGNORE_WANT': g['IGNORE_WANT'], 'IED': g['IED'], 'ELLIPSIS': g['ELLIPSIS'], 'NREQ': len(g['REQ'])}
     exp['nlive'] = st['nlive']
     return exp
 
@@ -474,17 +532,24 @@ def compare(exp, obs, wants):
         bad.append(('n_unmatched', exp['n_unmatched'], obs['n_unmatched']))
     if exp['done'] and exp['failed_part'] != -1 and not obs['ns_empty']:
         bad.append(('namespace_cleared', True, False))
+    if 'final_g' in exp and 'final_g' in obs and exp['final_g'] != obs['final_g']:
+        bad.append(('final_persistent_state', exp['final_g'], obs['final_g']))
+    if obs.get('defaults_untouched') is False:
+        bad.append(('DEFAULT_RUNTIME_STATE_untouched', True, False))
     if not obs.get('stdout_restored', True):
         bad.append(('stdout_restored', True, False))
     if not obs.get('stderr_restored', True):
         bad.append(('stderr_restored', True, False))
+    for f in ('filters_restored', 'showwarning_restored', 'path_restored', 'no_running_loop'):
+        if obs.get(f) is False:
+            bad.append((f, True, obs.get('path_diff') if f == 'path_restored' else False))
     return bad
 
 
 # ---------------------------------------------------------------------------
 # dump handling: split into raw state blocks so that workers parse in parallel
 
-_NEEDED = ('prog', 'cfgv', 'result', 'executed', 'failedPart', 'logged', 'skipped', 'unmatched', 'pc', 'excInfo', 'nlive')
+_NEEDED = ('prog', 'cfgv', 'result', 'executed', 'failedPart', 'logged', 'skipped', 'unmatched', 'pc', 'excInfo', 'nlive', 'g')
 
 
 def terminal_blocks(path):
@@ -539,11 +604,17 @@ def _replay_block(txt):
     wants = [[tuple(t) for t in w] for w in st['wtext']]
     rot = (zlib.crc32(txt.encode()) + _JOB['seed']) % 100003
     with Env():
-        obs = run_case(exp['prog'], wants, exp['cfg'], rot, verbose=_JOB.get('verbose', 0))
+        verbose = _JOB.get('verbose', 0)
+        if verbose == 'rotate':
+            verbose = rot % 4
+        modpath = None
+        if not exp['cfg'].get('importOk', True):
+            modpath = _JOB['failmods'][rot % len(_JOB['failmods'])]
+        obs = run_case(exp['prog'], wants, exp['cfg'], rot, modpath=modpath, verbose=verbose)
     bad = compare(exp, obs, wants)
     extra = _JOB['extra_check'](exp, obs, wants, rot) if _JOB.get('extra_check') else []
     bad = bad + extra
-    key = (tuple((p['body'], p['want'], len(p['dirs']), p['inline']) for p in exp['prog']), tuple(exp['cfg']['opts']), exp['cfg']['onError'], exp['cfg']['mode'])
+    key = (tuple((p['body'], p['want'], tuple((d['n'], d['pos']) for d in p['dirs']), p['inline']) for p in exp['prog']), tuple(exp['cfg']['opts']), exp['cfg']['onError'], exp['cfg']['mode'])
     info = {'key': key, 'result': exp['result'], 'nparts': len(exp['prog'])}
     if bad:
         info['bad'] = [(f, repr(a), repr(b)) for f, a, b in bad]
@@ -563,6 +634,15 @@ def replay_dump(out, dump_path, sig_fn, nontrivial_fn, extra_check=None, verbose
     _JOB['seed'] = common.seed()
     _JOB['extra_check'] = extra_check
     _JOB['verbose'] = verbose
+    if 'failmods' not in _JOB or not os.path.isdir(os.path.dirname(_JOB['failmods'][0])):
+        d = common.scratch_dir('xdv-failmod')
+        _JOB['failmods'] = []
+        for name, body in (('xdv_fail_zde', 'raise ZeroDivisionError("import boom")\n'), ('xdv_fail_imp', 'import xdv_no_such_module_zz\n'),
+                           ('xdv_fail_rt', 'import sys\nsys.path.append("/xdv/leftover")\nraise RuntimeError("late")\n')):
+            fp = os.path.join(d, name + '.py')
+            with open(fp, 'w') as f:
+                f.write(body)
+            _JOB['failmods'].append(fp)
     blocks = list(terminal_blocks(dump_path))
     if limit and len(blocks) > limit:
         import random
@@ -604,3 +684,47 @@ def docrun_cfg(parts, maxparts, invariants, tail='TailDefault', onerrors=('retur
 
 DOCRUN_INVS = ['ExecutedOnceInOrder', 'SkippedIsRef', 'OutcomeIsRef', 'ReturnNeverRaises', 'NothingRanNotPassed',
                'LoggedIsOutput', 'StdoutRestored', 'NamespaceCleared', 'PersistentIsFold', 'OverlayEmptyAtChoose']
+
+
+# ---------------------------------------------------------------------------
+# generic check driver shared by the DocRun-based properties
+
+def default_sig(info):
+    fields = sorted({b[0] for b in info['bad']})
+    return {'kind': 'replay', 'fields': ','.join(fields)}
+
+
+def docrun_check(out, runs, sig_fn=default_sig, nontrivial_fn=lambda info: True, extra_check=None, verbose=0):
+    """runs: list of dicts(label, parts, maxparts, onerrors, modes, opts, importoks, limit, tail, simulate)."""
+    for r in runs:
+        cfg = docrun_cfg(r['parts'], r['maxparts'], DOCRUN_INVS, tail=r.get('tail', 'TailDefault'),
+                         onerrors=r.get('onerrors', ('return',)), modes=r.get('modes', ('native',)),
+                         opts=r.get('opts', 'NoOpts'), importoks=r.get('importoks', ('TRUE',)),
+                         minparts=r.get('minparts', 0))
+        res = common.run_tlc('MC_DocRun', cfg, dump=True, timeout=r.get('timeout', 2400))
+        common.tlc_must_pass(res, 'DocRun ' + r['label'])
+        out.add_tlc(res, 'exhaustive:' + r['label'])
+        if res.violated:
+            raise common.MachineryError('spec-level invariant %s violated on the unchanged spec (%s):\n%s' % (res.violated, r['label'], res.stdout[-3000:]))
+        replay_dump(out, res.dump, sig_fn, nontrivial_fn, extra_check=extra_check, verbose=r.get('verbose', verbose), limit=r.get('limit'))
+        common.cleanup_scratch()
+    out.exhaustive = not out.extra.get('replay_sampled', False)
+
+
+def deviation_must_fail(out, parts, maxparts, deviation, **kw):
+    """vacuity control: the invariants must be violated when the named wrong behaviour is switched on"""
+    cfg = docrun_cfg(parts, maxparts, DOCRUN_INVS, deviation=(deviation,), **kw)
+    res = common.run_tlc('MC_DocRun', cfg, timeout=900)
+    common.cleanup_scratch()
+    if not res.violated:
+        raise common.MachineryError('vacuity control: deviation %s does not violate any invariant over %s' % (deviation, parts))
+    out.extra.setdefault('deviations_rejected', {})[deviation] = res.violated
+
+
+def generic_replay(path):
+    import json
+    d = json.load(open(path))['detail']
+    print(d.get('text'))
+    print('predicted:', d.get('predicted'))
+    print('disagreements:', d.get('disagreements'))
+    return 0
